@@ -123,7 +123,16 @@ func c18GenIdents(r *rand.Rand, n int) []c18Ident {
 				tags[k] = v
 			}
 			kind, name := b.Kind, b.Name
-			switch r.Intn(5) {
+			switch r.Intn(6) {
+			case 5: // a histogram whose name is another series' name + "_duration", and the timer of that name with the same tags
+				// (a timer keeps its observations in a histogram of that derived name): two identities, two series
+				base := c18Names[r.Intn(len(c18Names))]
+				h := c18MakeIdent("histogram", base+"_duration", tags)
+				if !seen[h.canon] && len(out) < n {
+					seen[h.canon] = true
+					out = append(out, h)
+				}
+				kind, name = "timer", base
 			case 0: // one value differs
 				if len(b.keys) > 0 {
 					tags[b.keys[r.Intn(len(b.keys))]] = c18Vals[r.Intn(len(c18Vals))]
@@ -941,6 +950,61 @@ func c18MonitorOp(r *rand.Rand, pm *metrics.PerformanceMonitor, x *c18MonExp, op
 	return false
 }
 
+// c18DefaultMonitorRound: the package-level monitor (RecordSearchOperation / RecordDatabaseOperation / GetPerformanceReport as
+// package functions), one for the whole process, with one ledger for the whole process. In between, the package-level
+// collector helpers are used for series of the same names and ResetMetrics() is called: they are another collector's business.
+var c18DefaultExp *c18MonExp
+var c18DefaultOps = []string{"load", "save", "search", "index", "reload"}
+
+func c18DefaultMonitorRound(ctx *Ctx, r *rand.Rand, rd int) {
+	if c18DefaultExp == nil {
+		c18DefaultExp = c18NewMonExp(c18DefaultOps, true)
+	}
+	x := c18DefaultExp
+	cs := map[string]interface{}{"part": "package-level monitor", "round": rd}
+	ctx.R.Begin(cs)
+	n := 20 + r.Intn(40)
+	ctx.R.Guard("C18", "metrics.Record*", cs, func() {
+		for i := 0; i < n; i++ {
+			d := time.Duration(r.Int63n(int64(5 * time.Second)))
+			switch r.Intn(6) {
+			case 0, 1:
+				hit := r.Intn(3) == 0
+				ql := r.Intn(200)
+				metrics.RecordSearchOperation(d, r.Intn(50), hit, ql)
+				atomic.AddInt64(&x.nSearch, 1)
+				atomic.AddInt64(&x.qlenSum, int64(ql))
+				if hit {
+					atomic.AddInt64(&x.hits, 1)
+				} else {
+					atomic.AddInt64(&x.misses, 1)
+				}
+			case 2, 3:
+				op := c18DefaultOps[r.Intn(len(c18DefaultOps))]
+				ok := r.Intn(4) != 0
+				metrics.RecordDatabaseOperation(op, d, ok)
+				atomic.AddInt64(&x.dbCnt[x.dbIndex(op, ok)], 1)
+			case 4: // the collector helpers, with names the monitor uses too
+				metrics.DefaultCounter([]string{"cache_misses_total", "cache_hits_total", "searches_total"}[r.Intn(3)], nil).Add(int64(1 + r.Intn(40)))
+				metrics.DefaultCounter("database_operations_total", map[string]string{"operation": c18DefaultOps[r.Intn(len(c18DefaultOps))], "success": "true"}).Inc()
+				metrics.DefaultHistogram("query_length", nil).Observe(float64(r.Intn(100)))
+				ctx.R.Path("default-collector-helper-calls", 1)
+			default:
+				if r.Intn(3) == 0 {
+					metrics.ResetMetrics()
+					ctx.R.Path("default-collector-resets", 1)
+				}
+			}
+		}
+	})
+	ctx.R.Eval(int64(n))
+	var rep metrics.PerformanceReport
+	if ctx.R.Guard("C18", "metrics.GetPerformanceReport", cs, func() { rep = metrics.GetPerformanceReport() }) {
+		c18CheckReport(ctx, "package-level monitor", false, rep, x, fmt.Sprintf("shard %d round %d", ctx.Shard, rd), map[string]bool{})
+		ctx.R.Path("package-level-monitor-rounds", 1)
+	}
+}
+
 func c18SeqMonitorRound(ctx *Ctx, r *rand.Rand, rd int) {
 	pm := metrics.NewPerformanceMonitor()
 	ops := c18PickOps(r)
@@ -1189,6 +1253,9 @@ func engineC18Seq(ctx *Ctx) {
 			c18AmbigRound(ctx, r, rd)
 		}
 		c18SeqMonitorRound(ctx, r, rd)
+		if rd%3 == 0 {
+			c18DefaultMonitorRound(ctx, r, rd)
+		}
 		if rd%4 == 1 {
 			c18SeqMDBRound(ctx, r, rd)
 		}
